@@ -218,10 +218,11 @@ class SessionDriver:
             self.last = {}
         if out is not None and not writes:
             self.last[key] = out
-        # every third evaluation-mode call of a deterministic operation is repeated on a freshly built model
+        # every third evaluation-mode call of a deterministic operation (and every call with another event shape) is
+        # repeated on a freshly built model
         # that received this model's state dict: same arguments, no history
         twin = "na"
-        if out is not None and not m.training and op in ("forward", "inverse", "log_prob", "transform_to_noise") and self.ncalls % 3 == 0 and ik != "grad":
+        if out is not None and not m.training and op in ("forward", "inverse", "log_prob", "transform_to_noise") and (self.ncalls % 3 == 0 or ik == "shape2") and ik != "grad":
             try:
                 tw = e.build(self.seed + 5000 + self.ncalls)
                 tw.load_state_dict({k: v.clone() for k, v in m.state_dict().items()})
